@@ -303,6 +303,38 @@ def so_session(so, texts, d):
     return out.count("CALL ")
 
 
+SO_SESSION_RESULTS = r'''
+import ctypes, sys, json
+lib = ctypes.CDLL(sys.argv[1])
+lib.FormatPacketDslExport.restype = ctypes.c_char_p
+lib.FormatPacketDslExport.argtypes = [ctypes.c_char_p]
+for t in json.load(open(sys.argv[2])):
+    r = lib.FormatPacketDslExport(t.encode("utf-8"))
+    print("CALL " + json.dumps((r or b"").decode("utf-8", "replace")), flush=True)
+print("SESSION-END", flush=True)
+'''
+
+
+def so_session_results(so, texts, d):
+    """ONE host process, many calls: the answer of every call that returned (a history-dependent export shows only here)"""
+    f = os.path.join(d, "session.json")
+    with open(f, "w") as fh:
+        json.dump(texts, fh)
+    try:
+        p = subprocess.run(["python3", "-c", SO_SESSION_RESULTS, so, f], capture_output=True, timeout=900)
+        out = p.stdout.decode("utf-8", "replace")
+    except subprocess.TimeoutExpired as e:
+        out = (e.stdout or b"").decode("utf-8", "replace")
+    res = []
+    for l in out.split("\n"):
+        if l.startswith("CALL "):
+            try:
+                res.append(json.loads(l[5:]))
+            except ValueError:
+                res.append(None)
+    return res, "SESSION-END" in out
+
+
 def so_format(so, text_bytes, d):
     f = os.path.join(d, "in.dsl")
     with open(f, "wb") as fh:
@@ -316,11 +348,17 @@ def so_format(so, text_bytes, d):
     return {"crash": p.returncode, "stderr": p.stderr[-300:].decode("utf-8", "replace")}
 
 
+CLI_HANGS = [0]     # invocations of this run that did not end: the first gets every benefit of the doubt, the later ones less
+
+
 def cli(cbin, args, cwd, timeout=300):
+    if CLI_HANGS[0]:
+        timeout = min(timeout, 60 if CLI_HANGS[0] < 3 else 15)
     try:
         p = subprocess.run([cbin] + args, cwd=cwd, capture_output=True, timeout=timeout)
         return p.returncode, p.stdout.decode("utf-8", "replace"), p.stderr.decode("utf-8", "replace")
     except subprocess.TimeoutExpired:
+        CLI_HANGS[0] += 1
         return -9, "", "timeout"
 
 
@@ -491,6 +529,13 @@ def run_c12(ctx):
         cfg = dslgen.Cfg()
         t = dslgen.render(dslgen.gen_program(rng, cfg))
         items.append((None, t, None))
+        # the same well-formed program written on ONE line (line numbers are no positions: every member then shares its line
+        # with every other one), and with every packet on a line of its own
+        if "//" not in t:
+            import textgen
+            items.append((None, " ".join(textgen.tokens_of(t)) + "\n", None))
+            if rng.random() < 0.5:
+                items.append((None, re.sub(r"\n(?!(root |packet |options|MetaData))", " ", t), None))
         for cls in faults.FAULT_CLASSES:
             r = faults.inject(t, cls, rng)
             if r:
@@ -500,6 +545,8 @@ def run_c12(ctx):
                     k = rng.choice([0, 0, 2])
                     items.append((cls, "\r\n" * k + r[0].replace("\n", "\r\n"), r[1] + k))
     items += [("dup_match_key", t, line) for t, line in faults.dup_key_programs()]
+    items.append((None, faults.KEYWORD_PREFIX_PROGRAM, None))
+    items.append((None, " ".join(faults.KEYWORD_PREFIX_PROGRAM.split()) + "\n", None))
     # documented option values, one at a time
     for k, vals in (("LittleEndian", ["true", "false"]), ("StringPrefixLenType", ["u8", "u16", "u32", "u64"]), ("ArrayPrefixLenType", ["u8", "u16", "u32", "u64"]),
                     ("FixedStringPadFromLeft", ["true", "false"]), ("FixedStringPadChar", ["'0'", "' '", "'\\x00'"]),
